@@ -3,7 +3,6 @@
 package media
 
 import (
-	"regexp"
 	"strings"
 
 	"github.com/tinode/chat/server/store/types"
@@ -15,11 +14,9 @@ func verifNameChar(c byte) bool {
 	return c == '-' || c == '_' || ('A' <= c && c <= 'Z') || ('a' <= c && c <= 'z') || ('0' <= c && c <= '9')
 }
 
-// Stand-in for fileNamePattern.FindString (`^[-_A-Za-z0-9]+`): the natively executed regexp cannot
-// take symbolic input.
-//
-//verif:override (*regexp.Regexp).FindString
-func verifFindString(re *regexp.Regexp, s string) string {
+// Reference for the file-name rule of the property (file ids are base64url text: letters, digits, '-', '_'):
+// the leading name characters of a path element.
+func verifFindString(_ any, s string) string {
 	n := 0
 	for n < len(s) && verifNameChar(s[n]) {
 		n++
@@ -83,3 +80,13 @@ func harnessC16Url(prefixKind int) {
 func Harness_C16_url_anydir()   { harnessC16Url(0) }
 func Harness_C16_url_serve()    { harnessC16Url(1) }
 func Harness_C16_url_relserve() { harnessC16Url(2) }
+
+// The URL an upload is given (serve path + canonical id text + optional extension) names exactly that upload.
+func Harness_C16_url_canonical() {
+	id := types.Uid(verifNondetU64("id"))
+	verifAssume(id != 0)
+	ext := []string{"", ".jpg", ".a-b", ".tar.gz"}[verifChoose("ext", 4)]
+	verifAssert(GetIdFromUrl(verifServe+id.String()+ext, verifServe) == id, "upload-url-names-its-upload")
+	verifAssert(GetIdFromUrl(id.String()+ext, verifServe) == id, "bare-name-names-its-upload")
+	verifReach("end")
+}
